@@ -1,8 +1,11 @@
 import Driver.Util
 import FitModel.ProfileSpec
 import FitModel.Generated.Xlsx
+import FitModel.Generated.XlsxTypes
 import FitModel.Generated.ProfileTables
--- @family prow Drv.Profile.hProw
+import FitModel.Generated.ProfileTypes
+import FitModel.Generated.ProfileStrs
+-- @family pmesgx Drv.Profile.hProw
 -- @family pfield Drv.Profile.hPfield
 -- @family ptype Drv.Profile.hPtype
 -- @family pstr Drv.Profile.hPstr
@@ -110,7 +113,7 @@ def pstr (spec : Bool) (args : List String) : String :=
 def kfClass (op : String) (args : List String) : String :=
   let hit : Bool :=
     match op, args with
-    | "prow", [n] => match n.toNat? with
+    | "pmesgx", [n] => match n.toNat? with
       | some n => (Xlsx.mesgs.find? (·.num == n)).any (Mesg.mentions f14)
       | none => false
     | "pfield", [n, k] => match n.toNat?, k.toNat? with
@@ -129,7 +132,7 @@ def mk (op : String) (f : Bool → List String → String) : Handler := fun r =>
   | .kf => kfClass op r.args
   | .prop => "n/a"
 
-def hProw : Handler := mk "prow" prow
+def hProw : Handler := mk "pmesgx" prow
 def hPfield : Handler := mk "pfield" pfield
 def hPtype : Handler := mk "ptype" ptype
 def hPstr : Handler := mk "pstr" pstr
